@@ -28,7 +28,12 @@
     workspace token is therefore never recognised) lies inside K4b's signature
     and is told apart by its own.  Directory names come from the SafePath model
     ([msp] = make_safe_path through [SafePath.sanitize], alphabet regenerated
-    from utils.py), so step names may hold characters that it deletes. *)
+    from utils.py), so step names may hold characters that it deletes.
+    The parameter token is the default "$" throughout: the T-code tie
+    (translate/tcode_subst.py -> Expand/SubstGen.v) reads get_combinations'
+    [Combination(self.token)] as [Combination()] under the hypothesis
+    [pg_token = "$"]; generators built with a non-default parameter token are
+    compared through the correspondence run only. *)
 From MWF Require Import Base.Str Expand.PyStr Expand.Subst Expand.SubstProofs Expand.SubstPasses
      Expand.SubstExists Expand.SubstWitness.
 From Coq Require Import Permutation.
